@@ -5,9 +5,13 @@ SPEC = {
                  "text": "Theorems in coq/theories/ConfigLemmas.v for all schemas and states: collecting mode returns a non-empty list exactly when raising mode raises (collect_iff_raise); a load_tree(validate=True) that returns OK leaves a state whose whole-configuration error list is empty (load_returns_validated); an empty error list on an enabled configuration means every leaf value passes its field's validate (hence required ones are set), required lists are non-empty, every nested sub-configuration validates recursively and every schema validator passes (validated_means); a configuration whose feature flag is off contributes no error (disabled_exempt). Items of configuration lists are validated on entry (make_item / cfg_items call validate_raise). Witness F36_refuted: the exemption does not extend to the per-assignment required check during a load. Tied to the code by comparing outcomes and error paths of validate() in both modes after every step.",
                  "note": 'Trusted: Coq kernel + vm_compute; harness; validators from a fixed vocabulary; leaf validate abstract. Open findings F36 (explicit null for a required field of a disabled sub-configuration is rejected at load) and F42 (required IncludeField never checked) -- include fields are not in this model. No axioms.',
                  "design_ref": "DESIGN.md section 6 C11"},
-    "streams": ['co11'],
+    "streams": ['co11', 'latereq'],
     "witnesses": ["F41", "F50"],
-    "rule": 'as C06, with load/validate-heavy histories, required fields, feature flags and schema validators at every depth',
+    "rule": ('as C06, with load/validate-heavy histories, required fields, feature flags and schema validators at every depth; stream `latereq` '
+             '(implementation only, direct oracle): required fields added to a schema after the configuration was built (root, nested, item '
+             'schemas), and lists of configurations of every origin (callable / constant default, assigned, loaded, constructor) whose items '
+             'are edited in place until one breaks its schema validator, field validator or required rule -- every load / validation in '
+             'raising and collecting mode must fail, and must have run every item\'s validator when it returns'),
     "trusted_base": [KERNEL, "Print Assumptions: closed under the global context (no axioms)", TIE, HARNESS,
                       "modelled, not verified: leaf fields are opaque in Config.v (Section variables lvalidate / lto_python / lto_basic / ldefault); "
                       "the correspondence instantiates them with the concrete IntField / StringField / BoolField / FeatureFlagField / AnyField model "
